@@ -29,6 +29,9 @@ class R:
     def i8(self):
         return struct.unpack(">b", self.take(1))[0]
 
+    def u8(self):
+        return struct.unpack(">B", self.take(1))[0]
+
     def i16(self):
         return struct.unpack(">h", self.take(2))[0]
 
@@ -93,7 +96,7 @@ def parse_message(body):
     r = R(body)
     crc = r.u32()
     magic = r.i8()
-    attrs = r.i8()
+    attrs = r.u8()  # a bit field: presented unsigned
     ts = None
     if magic == 1:
         ts = r.i64()
@@ -109,9 +112,9 @@ def parse_message(body):
 
 def encode_message(magic, attributes, key, value, timestamp=None):
     if magic == 0:
-        body = struct.pack(">bb", magic, attributes)
+        body = struct.pack(">bB", magic, attributes)
     else:
-        body = struct.pack(">bbq", magic, attributes, timestamp)
+        body = struct.pack(">bBq", magic, attributes, timestamp)
     body += enc_bytes(key) + enc_bytes(value)
     crc = zlib.crc32(body) & 0xFFFFFFFF
     return struct.pack(">I", crc) + body
